@@ -44,6 +44,11 @@ pub struct Prog {
     #[serde(default)]
     pub kinds: Vec<String>,
     pub tasks: Vec<Vec<Op>>,
+    /// thread-local destructor behaviour per key: key read by the destructor (-1 none), yields?
+    #[serde(default)]
+    pub tls_touch: Vec<i64>,
+    #[serde(default)]
+    pub tls_yield: Vec<i64>,
     /// max_steps: 0 = none, n>0 = FailAfter(n), n<0 = ContinueAfter(-n)
     #[serde(default)]
     pub maxsteps: i64,
